@@ -69,13 +69,41 @@ def scratch_root():
 
 
 _booted = False
+PYLOPS_STANDIN = False
 
 
-def boot():
+def install_pylops_standin():
+    """
+    `pylops` is not installed here, and without it TransformerDFT refuses to construct (its base class is a placeholder),
+    which removes interferometer datasets and inversions from every world.  A 3-line stand-in for the ONE thing the
+    library needs from pylops at construction time - a `LinearOperator` base class - makes TransformerDFT, Interferometer
+    and InversionInterferometerMapping real, running their own numpy code.  pylops' solvers (lop.py) are NOT provided and
+    never exercised.  Declared as a stub in every evidence file of the system that uses it.
+    """
+    global PYLOPS_STANDIN
+    import types
+
+    if "pylops" in sys.modules:
+        return
+    mod = types.ModuleType("pylops")
+
+    class LinearOperator:
+        def __init__(self, *args, **kwargs):
+            pass
+
+    mod.LinearOperator = LinearOperator
+    mod.__verif_standin__ = True
+    sys.modules["pylops"] = mod
+    PYLOPS_STANDIN = True
+
+
+def boot(pylops_standin=False):
     """Import autoarray from REPO under a controlled config stack. Idempotent."""
     global _booted
     if _booted:
         return
+    if pylops_standin or os.environ.get("VERIF_PYLOPS_STANDIN") == "1":
+        install_pylops_standin()
     for p in (VERIF, REPO):
         if p in sys.path:
             sys.path.remove(p)
